@@ -177,6 +177,25 @@ func spThreeRoles(e enum.Embed, stride uint64, nSubj, level int) *BoolSpace {
 		}}
 }
 
+// spNoSubject: B0 - no subject at all (nil, empty set, set holding one empty path) and a clip path of P(3,n):
+// "inside subject" is false everywhere, so Union and Xor return the clip region.
+func spNoSubject(e enum.Embed, n, level int) *BoolSpace {
+	cnt := enum.PathCount(3, n)
+	return &BoolSpace{Name: fmt.Sprintf("B0/{nil, empty, one empty path} x P(3,%d)/%s", n, e.Name), Level: level, Size: 3 * cnt, E: e,
+		Gen: func(idx uint64, g *genBuf) (Paths, Paths) {
+			g.reset()
+			g.p[0] = enum.UnrankPath(idx%cnt, 3, n, e, g.p[0])
+			g.c = append(g.c, g.p[0])
+			switch idx / cnt {
+			case 0:
+				return nil, g.c
+			case 1:
+				return Paths{}, g.c
+			}
+			return Paths{{}}, g.c
+		}}
+}
+
 // spTwoLevel: B9 - a subject quadrilateral whose vertices lie on the two rows y=0 and y=60 and a clip triangle whose
 // vertices lie on the rows y=-6 and y=66, x in {0,12,24,36,48}: long edges that cross each other pairwise inside ONE
 // scanbeam (no vertex between the rows), bow-ties and zigzags included. Strides must be coprime to 10.
@@ -215,6 +234,7 @@ func boolSpaces(tier string) []*BoolSpace {
 	var out []*BoolSpace
 	region := []enum.Embed{enum.Eax, enum.Esh}
 	if tier == "quick" {
+		out = append(out, spNoSubject(enum.Eax, 3, 1), spNoSubject(enum.Eax, 4, 2))
 		for _, e := range region {
 			out = append(out, spSingle(e, 3, 3, 1), spSingle(e, 3, 4, 2), spSingle(e, 3, 5, 3))
 		}
@@ -226,6 +246,7 @@ func boolSpaces(tier string) []*BoolSpace {
 		return out
 	}
 	all := []enum.Embed{enum.Eax, enum.Esh, enum.Ean, enum.Ebig}
+	out = append(out, spNoSubject(enum.Eax, 3, 1), spNoSubject(enum.Eax, 4, 2), spNoSubject(enum.Esh, 5, 3))
 	for _, e := range all {
 		out = append(out, spSingle(e, 3, 3, 1), spSingle(e, 3, 4, 2), spSingle(e, 3, 5, 3), spSingle(e, 3, 6, 4))
 	}
